@@ -77,12 +77,12 @@ class Exec(object):
             return orelse(st)
         # syntactic check against the path condition: a branch whose condition (or its negation)
         # is already a conjunct of pc is decided
-        pos = z3.simplify(cond).get_id()
-        neg = z3.simplify(z3.Not(cond)).get_id()
-        ids = set(z3.simplify(c).get_id() for c in st.pc[-40:])
-        if pos in ids:
+        pos = z3.simplify(cond)
+        neg = z3.simplify(z3.Not(cond))
+        simp = [z3.simplify(c) for c in st.pc[-40:]]      # kept alive: AST ids are reused after GC
+        if any(pos.eq(c) for c in simp):
             return then(st)
-        if neg in ids:
+        if any(neg.eq(c) for c in simp):
             return orelse(st)
         s1 = st.fork()
         s1.assume(cond)
@@ -219,6 +219,8 @@ class Exec(object):
     def del_subscript(self, tgt, st, fr):
         def go(vals, s):
             o, k = vals
+            if isinstance(o, VOpt):
+                return self.unopt(o, s, lambda o2, s2: go([o2, k], s2))
             h = s.heap[o.ref] if isinstance(o, VRef) else None
             if isinstance(h, HDict):
                 has = dict_has(h, k)
